@@ -454,6 +454,48 @@ OPTS = [{}] + [{"resolve_relative_uris": a, "sanitize_html": b, "optimistic_enco
 FORMS = ["bytes", "bytes", "stream", "short", "str"]
 
 
+
+# ---- key collisions: an element named like a key the handlers keep their own data under, in every shape, before a document that uses every handler
+COLLIDE_KEYS = sorted(set(INTERNAL_KEYS + ["subtitle_detail", "rights_detail", "cloud", "summary", "title", "link", "id", "guidislink", "generator", "info", "rights", "subtitle", "docs", "comments",
+    "publishers", "content_detail", "description_detail", "tagline_detail", "copyright_detail", "info_detail", "entries", "feed", "namespaces", "version", "itunes_explicit", "itunes_block",
+    "media_keywords", "media_group", "media_title", "media_description", "errorreportsto", "logo", "icon", "ttl", "expired", "created", "created_parsed", "expired_parsed", "validity_start", "validity_end"]))
+COLLIDE_NS = ('xmlns:dc="http://purl.org/dc/elements/1.1/" xmlns:itunes="http://www.itunes.com/dtds/podcast-1.0.dtd" xmlns:media="http://search.yahoo.com/mrss/" xmlns:georss="http://www.georss.org/georss" '
+              'xmlns:gml="http://www.opengis.net/gml" xmlns:psc="http://podlove.org/simple-chapters" xmlns:cc="http://web.resource.org/cc/" xmlns:creativeCommons="http://backend.userland.com/creativeCommonsRssModule" '
+              'xmlns:atom="http://www.w3.org/2005/Atom" xmlns:rdf="http://www.w3.org/1999/02/22-rdf-syntax-ns#" xmlns:dcterms="http://purl.org/dc/terms/" xmlns:admin="http://webns.net/mvcb/" xmlns:xhtml="http://www.w3.org/1999/xhtml"')
+COLLIDE_RICH = ('<title>T</title><link>http://e/</link><atom:link rel="self" href="s"/><description>D</description><author>a@b (N)</author><managingEditor>m@e</managingEditor><webMaster>w@m</webMaster><dc:creator>C</dc:creator><dc:publisher>P</dc:publisher><dc:contributor>CC</dc:contributor>'
+        '<atom:author><atom:name>n</atom:name><atom:email>e@x</atom:email><atom:uri>u</atom:uri></atom:author><atom:contributor><atom:name>cn</atom:name><atom:email>ce@x</atom:email><atom:url>cu</atom:url></atom:contributor>'
+        '<category domain="d">cat</category><dc:subject>s</dc:subject><itunes:keywords>a, b</itunes:keywords><itunes:category text="x"><itunes:category text="y"/></itunes:category><media:keywords>k1, k2</media:keywords>'
+        '<generator uri="g">gen</generator><atom:generator uri="g" version="1">G</atom:generator><admin:generatorAgent rdf:resource="r"/><admin:errorReportsTo rdf:resource="r"/>'
+        '<image><url>u</url><title>t</title><link>l</link><width>1</width><height>2</height><description>d</description></image><itunes:image href="h"/><textInput><title>t</title><name>n</name><link>l</link><description>d</description></textInput>'
+        '<cloud domain="d" port="80"/><copyright>c</copyright><atom:rights>r</atom:rights><atom:subtitle>st</atom:subtitle><atom:summary>sm</atom:summary><atom:content type="html">ct</atom:content><atom:id>i</atom:id><guid>g</guid><guid isPermaLink="false">g2</guid>'
+        '<enclosure url="u" length="1" type="t"/><atom:link rel="enclosure" href="e"/><atom:link rel="license" href="lic"/><cc:license rdf:resource="lr"/><creativeCommons:license>cl</creativeCommons:license>'
+        '<source url="su">S</source><atom:source><atom:title>st</atom:title><atom:link href="sl"/><atom:author><atom:name>sn</atom:name></atom:author></atom:source><comments>c</comments><docs>d</docs><ttl>5</ttl>'
+        '<pubDate>Thu, 01 Jan 2004 19:48:21 GMT</pubDate><dc:date>2004-01-01</dc:date><atom:updated>2004-01-01T00:00:00Z</atom:updated><atom:published>2004</atom:published><dcterms:created>2004</dcterms:created><dcterms:valid>start=2004;end=2005</dcterms:valid><expirationDate>2005</expirationDate>'
+        '<itunes:author>ia</itunes:author><itunes:owner><itunes:name>on</itunes:name><itunes:email>oe@x</itunes:email></itunes:owner><itunes:explicit>yes</itunes:explicit><itunes:block>yes</itunes:block><itunes:subtitle>is</itunes:subtitle><itunes:summary>isum</itunes:summary>'
+        '<media:content url="mu"><media:title>mt</media:title><media:description>md</media:description><media:credit role="r">mc</media:credit><media:thumbnail url="tu"/><media:player url="pu"/><media:rating scheme="s">r</media:rating><media:restriction relationship="allow">us</media:restriction><media:license href="lh">ml</media:license></media:content><media:group><media:content url="g1"/></media:group><media:thumbnail url="t2"/>'
+        '<georss:point>1 2</georss:point><georss:line>1 2 3 4</georss:line><georss:where><gml:Point><gml:pos>1 2</gml:pos></gml:Point></georss:where><georss:box>1 2 3 4</georss:box>'
+        '<psc:chapters><psc:chapter start="0:01" title="c"/></psc:chapters><itunes:new-feed-url>nf</itunes:new-feed-url><newLocation>nl</newLocation><language>en</language><dc:language>fr</dc:language><dc:rights>dr</dc:rights><dc:title>dt</dc:title><dc:description>dd</dc:description>'
+        '<xhtml:body>xb</xhtml:body><body>b</body><fullitem>f</fullitem><content:encoded xmlns:content="http://purl.org/rss/1.0/modules/content/">ce</content:encoded><abstract>ab</abstract><info>inf</info><tagline>tl</tagline><prodlink>p</prodlink><tags>t1 t2</tags>')
+
+
+def collision_cases(full):
+    """(label, document): element K in four shapes (attributes only, text only, both, empty) at feed level, entry level or both, INSIDE a link / author element or before a document
+    that exercises every handler family, RSS and Atom.  `full`: every combination; otherwise the two shapes that replace the key's value, at both levels"""
+    shapes = ['<%s a="b"/>', "<%s>zz</%s>", '<%s a="b">zz</%s>', "<%s/>"] if full else ['<%s a="b"/>', "<%s>zz</%s>"]
+    wheres = ("feed", "item", "both") if full else ("both",)
+    for k in COLLIDE_KEYS:
+        for sh in shapes:
+            shape = sh % ((k, k) if sh.count("%s") == 2 else (k,))
+            for where in wheres:
+                f = shape if where in ("feed", "both") else ""
+                i = shape if where in ("item", "both") else ""
+                yield "%s/%s/rss" % (k, where), '<rss version="2.0" %s><channel>%s%s<item>%s%s</item><item>%s</item></channel></rss>' % (COLLIDE_NS, f, COLLIDE_RICH, i, COLLIDE_RICH, COLLIDE_RICH)
+                yield "%s/%s/atom" % (k, where), '<feed xmlns="http://www.w3.org/2005/Atom" %s>%s%s<entry>%s%s</entry></feed>' % (COLLIDE_NS, f, COLLIDE_RICH.replace("atom:", ""), i, COLLIDE_RICH.replace("atom:", ""))
+            # the same element INSIDE an open link / author / contributor / generator / source element (between its start and its end handler)
+            for outer in ("link", "author", "atom:author", "atom:contributor", "generator", "atom:source", "image", "category"):
+                yield "%s/inside-%s" % (k, outer), '<rss version="2.0" %s><channel><%s>%sx<atom:name>n</atom:name></%s><item><%s>%sy</%s></item></channel></rss>' % (COLLIDE_NS, outer, shape, outer, outer, shape, outer)
+
+
 def gen_case(rng, vocab, pref_uri):
     k = rng.random()
     if k < 0.08:
@@ -486,9 +528,18 @@ def search(ctx, focus=None):
         dist[stream] = dist.get(stream, 0) + 1
         dist["loose" if loose else "strict-first"] = dist.get("loose" if loose else "strict-first", 0) + 1
         failures += judge(data, headers, loose, opts, form, stream, rng)
+    # key collisions: deterministic, every run (both back ends)
+    for label, doc in collision_cases(ctx.thorough):
+        for loose in (False, True):
+            n += 1
+            data = doc.encode("utf-8")
+            distinct.add((data, loose, "bytes"))
+            dist["key-collision"] = dist.get("key-collision", 0) + 1
+            failures += judge(data, None, loose, {}, "bytes", "key-collision", rng)
     dist["handler_vocabulary"] = len(vocab)
     return {"evaluations": n, "distinct_nontrivial": len(distinct), "failures": failures, "distribution": dist,
-            "rule": "GeoRSS / GML geometries x srsDimension / srsName x 0-9 ordinates; DOCTYPE internal subsets declaring entities of every value shape (incl. malformed character references) referenced in the content; four input streams: (1) grammar fuzz over the handler vocabulary read from the tree (every _start_/_end_ name mapped back to prefix:local; random nesting, attributes, "
+            "rule": "KEY COLLISIONS (deterministic, every run): an element named like each of %d keys the handlers keep their own data under, as attributes-only / text-only (thorough: + both, empty; feed, entry or both levels), before a document that uses every handler family (RSS and Atom) and inside an open link / author / contributor / generator / source / image / category element, both back ends; " % len(COLLIDE_KEYS) +
+                    "GeoRSS / GML geometries x srsDimension / srsName x 0-9 ordinates; DOCTYPE internal subsets declaring entities of every value shape (incl. malformed character references) referenced in the content; four input streams: (1) grammar fuzz over the handler vocabulary read from the tree (every _start_/_end_ name mapped back to prefix:local; random nesting, attributes, "
                     "text classes incl. numbers, dates, references of every class, CDATA, markup; balanced and unbalanced / unclosed / stray-end-tag / mismatched / self-nested), "
                     "(2) byte-level mutations of the repository's test corpus, (3) JSON of arbitrary shape incl. wrong types at every documented key, (4) arbitrary binary with every BOM "
                     "and declared / undeclared encodings; x response_headers alphabets x both back ends x the 8 option combinations (+ defaults) x delivery {bytes, BytesIO, short-read "
@@ -531,8 +582,10 @@ def replay(w):
 
 
 TECHNIQUE = "Lean 4 proof: invariants of the handler machine model that rule out its failure points (entries[-1], empty element stack) for EVERY event sequence + result-shape and bozo-pairing theorems on a model of parse()'s result assembly + correspondence of both models + grammar / mutation / JSON / binary fuzzing with crash-site identity"
-LEVEL_TEXT = ("Kernel-checked: on M-mixin (stage 1) inentry_has_entry (every reachable state with inentry set has a last entry: the entries[-1] of _get_context cannot raise), "
-              "step_total (a step never gets stuck on structural / handler-less vocabulary: every event, however unbalanced the arrangement, yields a state); on M-api shape_always / "
+LEVEL_TEXT = ("Kernel-checked: on M-mixin (stages 1-4: structural handlers, the no-handler fallback, date elements, text constructs, summary / description / content, link and guid / id) inentry_has_entry (every reachable state with inentry set has a last entry: the entries[-1] of _get_context cannot raise), "
+              "step_total (a step never gets stuck on structural / handler-less vocabulary: every event, however unbalanced the arrangement, yields a state), content_has_params (an open text "
+              "construct always has content parameters: the contentparams.get('type') of _end_content is never None); the link / guid handlers are TOTAL in the model (startLG_isOk, endLG_isOk) -- "
+              "modelling pop('link') is what exposed the links[-1] crash repaired in 1ddbe04; on M-api shape_always / "
               "shape_nonempty / bozo_iff_exception (for every combination of stage outcomes the assembled result has the promised keys and bozo is set exactly when an exception is attached).")
 LEVEL_NOTE = ("Trusted: Lean kernel + standard axioms; library exception contracts; the dedicated extension handlers are outside the theorems -- the fuzzer covers them and every crash "
               "site found is either fixed in /repo or listed as a known finding keyed by (exception type, innermost feedparser function).")
